@@ -265,7 +265,10 @@ def save_replay(prop, case, extra=None):
 
 
 def write_evidence(prop, level, coverage, assumptions, violations, extra=None):
-    os.makedirs(os.path.join(ROOT, "evidence"), exist_ok=True)
+    evdir = os.path.join(ROOT, "evidence")
+    if os.path.realpath(REPO) != "/repo":
+        evdir = os.path.join(scratch(), "evidence")   # development runs against a scratch copy leave /verif/evidence alone
+    os.makedirs(evdir, exist_ok=True)
     ev = {
         "property_id": prop,
         "tier": tier(),
@@ -279,7 +282,7 @@ def write_evidence(prop, level, coverage, assumptions, violations, extra=None):
     if extra:
         ev.update(extra)
     check_evidence(ev)
-    path = os.path.join(ROOT, "evidence", prop + ".json")
+    path = os.path.join(evdir, prop + ".json")
     with open(path, "w") as f:
         json.dump(ev, f, indent=1, default=str)
         f.write("\n")
